@@ -1,0 +1,17 @@
+//go:build verif
+
+package fixedn
+
+// Contracts for the verif build tag (comment-only; see /verif/DESIGN.md).
+
+// C18, fixed-point decimals: the scale factor for a precision is that power of ten, whether
+// it comes from the precomputed table or is built past its end.
+//@ prop C18
+//@ import big math/big
+//@ spec p10(k int) int decreases k = ite(k <= 0, 1, 10 * p10(k-1))
+// The table as the package initialiser leaves it (17 entries, entry k is 10^k; nothing writes it afterwards).
+//@ pkg-invariant len(_pow10) == 17 && forall(k, 0, len(_pow10), _pow10[k] != nil && _pow10[k].v == p10(k)) && _pow10[1].v == 10
+//@ func pow10
+//@ requires n >= 0
+//@ ensures[power] result != nil && result.v == p10(n)
+//@ loop 0 invariant last == 16 && last + 1 <= i && (i <= n || i == last + 1) && p != nil && fresh(p) && p.v == p10(i)
